@@ -25,6 +25,7 @@ Definition run_op (p : params) (buf : list byte) (o : op) : list byte * outcome 
   | LRemove i => remove p buf i
   | LSet i it => unit_payload (set_elem p buf i it)
   | LSort => unit_payload (sort p buf)
+  | LSortKey => unit_payload (sort_with key4_leb p buf)
   end.
 
 Definition run_item (p : params) (buf : list byte) (it : item) : list byte * bool :=
